@@ -26,26 +26,52 @@ import (
 func instrumentMock(fx *Fixture, tc *TC) ([]byte, int, int, error) {
 	f := tc.File
 	redirected := 0
+	hookPkg := "vshimhook"
+	isSyncMutexType := func(e ast.Expr) bool {
+		sel, ok := e.(*ast.SelectorExpr)
+		if !ok {
+			return false
+		}
+		tn, ok := tc.Info.Uses[sel.Sel].(*types.TypeName)
+		return ok && tn.Pkg() != nil && tn.Pkg().Path() == "sync" && (tn.Name() == "RWMutex" || tn.Name() == "Mutex")
+	}
+	// Only fields whose whole type is sync.RWMutex / sync.Mutex (the mock's own locks) are
+	// redirected to the shim; sync types inside signatures (M() *sync.Mutex) stay real.
+	syncName := ""
 	for _, spec := range f.Imports {
 		if p, _ := strconv.Unquote(spec.Path.Value); p == "sync" {
-			if spec.Name == nil {
-				spec.Name = ast.NewIdent("sync")
+			syncName = "sync"
+			if spec.Name != nil {
+				syncName = spec.Name.Name
 			}
-			spec.Path.Value = strconv.Quote("verif/rt/shimsync")
-			redirected++
 		}
 	}
-	if redirected == 0 {
-		return nil, 0, 0, fmt.Errorf("no sync import to redirect")
+	ast.Inspect(f, func(n ast.Node) bool {
+		st, ok := n.(*ast.StructType)
+		if !ok || st.Fields == nil {
+			return true
+		}
+		for _, fld := range st.Fields.List {
+			if isSyncMutexType(fld.Type) {
+				sel := fld.Type.(*ast.SelectorExpr)
+				fld.Type = &ast.SelectorExpr{X: ast.NewIdent(hookPkg), Sel: ast.NewIdent(sel.Sel.Name)}
+				redirected++
+			}
+		}
+		return true
+	})
+	if redirected == 0 || syncName == "" {
+		return nil, 0, 0, fmt.Errorf("no sync mutex field to redirect")
 	}
-	// a second import of the shim under a private name for the hooks
-	hookPkg := "vshimhook"
 	for _, d := range f.Decls {
 		if gd, ok := d.(*ast.GenDecl); ok && gd.Tok == token.IMPORT {
 			gd.Specs = append(gd.Specs, &ast.ImportSpec{Name: ast.NewIdent(hookPkg), Path: &ast.BasicLit{Kind: token.STRING, Value: strconv.Quote("verif/rt/shimsync")}})
 			break
 		}
 	}
+	// keep the sync import used even if the lock fields were its only use
+	f.Decls = append(f.Decls, &ast.GenDecl{Tok: token.VAR, Specs: []ast.Spec{&ast.ValueSpec{Names: []*ast.Ident{ast.NewIdent("_")},
+		Type: &ast.SelectorExpr{X: ast.NewIdent(syncName), Sel: ast.NewIdent("Locker")}}}})
 	hooks := 0
 	isMutex := func(t types.Type) bool {
 		if n, ok := types.Unalias(t).(*types.Named); ok && n.Obj().Pkg() != nil && n.Obj().Pkg().Path() == "sync" {
@@ -389,7 +415,8 @@ func runE4(prop, tier string) int {
 	defer cleanup(work)
 	t0 := time.Now()
 	builds, pkgs := dynBuilds("dyn4")
-	fx := NewFixture(work+"/fx", pkgs)
+	shapePkgs := e4ShapePkgs()
+	fx := NewFixture(work+"/fx", append(pkgs, shapePkgs...))
 	addRtModule(fx)
 	validateFixture(fx)
 	bin, err := e4Build(fx, work, rep, builds)
@@ -478,20 +505,23 @@ func runE4(prop, tier string) int {
 	if capped > 0 {
 		rep.Cap(fmt.Sprintf("%d scenarios hit the per-scenario execution cap", capped))
 	}
-	if single > 0 && multi == 0 {
-		fmt.Fprintln(os.Stderr, "WARNING: every scenario produced a single outcome: nothing collided")
-	}
 	rep.Set("evaluations", int(execs))
 	rep.Set("distinct_nontrivial", distinct)
 	rep.Set("states", int(states))
 	rep.Set("transitions", int(trans))
 	rep.Set("traces_validated_against_impl", int(execs))
+	rep.Set("typed_targets_executions", int(execs))
+	e4Shapes(fx, work, rep, prop, tier, shapePkgs)
+	if single > 0 && multi == 0 {
+		fmt.Fprintln(os.Stderr, "WARNING: every scenario produced a single outcome: nothing collided")
+	}
 	rep.Set("scenarios", scen)
 	rep.Set("scenarios_with_one_outcome", single)
 	rep.Set("scenarios_with_several_outcomes", multi)
 	rep.Set("max_distinct_outcomes_per_scenario", maxOut)
 	rep.Set("bounds", map[string]any{"preemption_bound_completed": bound, "threads": "1-3", "ops_per_thread": "1-2 (3-thread scenarios: 1, thorough adds one 2-op thread)",
-		"builds": "stub x with-resets on interface Two (custom mock name in one build)"})
+		"builds":         "stub x with-resets on interfaces Two and Void (custom mock name in one build)",
+		"all_shapes_leg": "every compilable shape of S-type1, S-cfg, S-embed and 10 extra shapes (with-resets, stub+with-resets): traced single-threaded, grouped by abstract sync/access trace, one representative per class explored (2 threads, 1-2 ops, same oracles)"})
 	rep.Set("samples", samples)
 	rep.Set("rule", "every interleaving of the synchronisation points (mutex operations with Go's writer preference, thread start, gate waits) of every scenario with at most the stated number of preemptions, on the instrumented compiled mock; evaluations = executions (each is a run of the real generated code); distinct_nontrivial = sum over scenarios of distinct observed outcomes (final lists + snapshots); states = distinct per-thread progress vectors per scenario")
 	rep.Assume = []string{
